@@ -896,7 +896,8 @@ func parseFontProps(arg *mapVal) (map[string]any, error) {
 		"align":         "string",
 		"letterspacing": "num",
 	}
-	for key, val := range arg.Pairs {
+	for _, key := range *arg.Order { // insertion order: the first bad property reported must not depend on Go's map iteration
+		val := arg.Pairs[key]
 		propType, ok := propTypes[key]
 		if !ok {
 			return nil, fmt.Errorf("%w: unknown property %q", ErrBadArguments, key)
